@@ -455,6 +455,10 @@ class TransactionOutput(CBORSerializable):
             self.address = Address.from_primitive(self.address)
         if isinstance(self.amount, int):
             self.amount = Value(self.amount)
+        if self.datum is not None or self.script is not None:
+            # An inline datum or a reference script exists in the map form only: the output is written
+            # in that form whatever the flag says, so the flag says so too.
+            self.post_alonzo = True
 
     def validate(self):
         super().validate()
@@ -507,7 +511,7 @@ class TransactionOutput(CBORSerializable):
                     output.amount,
                     datum_hash=datum,
                     script=output.script,
-                    post_alonzo=output.script is None,
+                    post_alonzo=True,
                 )
             else:
                 return cls(
@@ -515,7 +519,7 @@ class TransactionOutput(CBORSerializable):
                     output.amount,
                     datum=datum,
                     script=output.script,
-                    post_alonzo=datum is None and output.script is None,
+                    post_alonzo=True,
                 )
 
 
